@@ -226,7 +226,7 @@ add("e1_value_scalars", "transcode::value",
 add("e2_value_structure", "transcode::value",
     desc="Value round trip of structure: deserializing an event sequence and serializing the Value yields the same events, order and roles; collections declare their exact length",
     bounds="<= 4 events, nesting 1, honest length hints <= 4", functions=E_FUN,
-    covers=["E2 map with an entry", "E2 seq with two elements"], flags=NOCHK, props=["C01", "C03"], timeout=1200, mem_gb=16,
+    covers=["E2 map with an entry", "E2 seq with two elements"], flags=NOCHK, props=["C01", "C03"], timeout=1200, mem_gb=28,
     assumptions=D_ASM[:2])
 
 
